@@ -13,7 +13,7 @@ pid = args[0]
 first = int(args[1]) if len(args) > 1 else 10
 src = opts.get('src', '/tmp/r4/%s/_seed' % pid)
 rnd = int(opts.get('round', '4'))
-SUITE = '/tmp/r4_tools/suite.py'
+SUITE = os.path.join(HERE, 'tools', 'agent_prompts', 'suite.py')
 
 
 def run(cmd, **kw):
